@@ -135,7 +135,22 @@ def check(P: Project, R: Report) -> None:
             why = f"preferred version proposed; membership literal present: {ok}"
         elif first is not None and whose_list(first, st, ordered=True) in ("caller", "library"):
             # the fallback is for a caller without a usable preference: none given, or one that is not in the list
-            no_pref = {f"not {pref}", f"{pref} is None"} & set(st.lits) or any(l.startswith(f"{pref} not in ") and whose_list(l[len(pref) + 8:], st) in ("caller", "library") for l in st.lits)
+            no_pref = {f"not {pref}", f"{pref} is None", f"not bool({pref})"} & set(st.lits) or any(l.startswith(f"{pref} not in ") and whose_list(l[len(pref) + 8:], st) in ("caller", "library") for l in st.lits)
+            if not no_pref:
+                # … or the same said through a flag: `use_preferred = bool(pref) and pref in supported` … `if not use_preferred`
+                def usable_conjunct(e_) -> bool:
+                    t_ = ast.unparse(e_)
+                    if t_ in (pref, f"bool({pref})", f"{pref} is not None"):
+                        return True
+                    return isinstance(e_, ast.Compare) and len(e_.ops) == 1 and isinstance(e_.ops[0], ast.In) and ast.unparse(e_.left) == pref and whose_list(subst_text(e_.comparators[0], st), st) in ("caller", "library")
+
+                for l in st.lits:
+                    if l.startswith("not "):
+                        d_ = an.defs.get(l[4:], ("", None))[1]
+                        if isinstance(d_, ast.BoolOp) and isinstance(d_.op, ast.And) and all(usable_conjunct(v_) for v_ in d_.values):
+                            no_pref = True
+                        elif d_ is not None and isinstance(d_, ast.AST) and not isinstance(d_, ast.BoolOp) and usable_conjunct(d_):
+                            no_pref = True
             ok = bool(no_pref)
             why = "first supported version proposed" + ("" if ok else f" on a path that has not established that the preferred version is missing from the list (literals {sorted(l[:50] for l in st.lits)[:5]}): a preferred version that is in the caller's list is passed over")
         else:
